@@ -262,6 +262,9 @@ def gen_formula(rng, depth, counter):
     return '(%s or %s)' % (t1, t2), (lambda trace: e1(trace) or e2(trace))
 
 
+RAISES = object()
+
+
 def exact_cases(rng):
     """yields (form, text, vars, expected trace, expected value or NOCHECK, number of unselected operands)"""
     NO = object()
@@ -338,6 +341,22 @@ def exact_cases(rng):
     yield 'selectAllCases-lazy', 'selectAllCases(tick(1, false), tick(2, true), tick(3, 1)).first()', {}, [1, 2], 1, 1
     yield 'assert', '5.assert(tick(1, $ > 1), tick(2, \'msg\'))', {}, [2, 1], 5, 0
     yield 'def', 'def(f, tick(1, $ + 1)) -> [f(tick(2, 1)), f(tick(3, 2))]', {}, [2, 1, 3, 1], [2, 3], 0
+    # the selected operand fails: the failure is the outcome, no other operand is evaluated in its place
+    kind = rng.choice(('index', 'zero', 'key', 'nomatch'))
+
+    def R(k):
+        return {'index': '[tick(%d, 7)][1]', 'zero': '(tick(%d, 1) / 0)', 'key': "{a => tick(%d, 1)}['b']",
+                'nomatch': '(tick(%d, 1) + [])'}[kind] % k
+    yield 'raise-switchCase', 'tick(1, 0).switchCase(%s, tick(3, 9))' % R(2), {}, [1, 2], RAISES, 1
+    yield 'raise-switchCase-last', 'tick(1, 5).switchCase(tick(2, 9), %s)' % R(3), {}, [1, 3], RAISES, 1
+    yield 'raise-switch', 'switch(tick(1, true) => %s, tick(3, true) => tick(4, 1))' % R(2), {}, [1, 2], RAISES, 2
+    yield 'raise-switch-condition', 'switch(%s => tick(2, 1), tick(3, true) => tick(4, 1))' % R(1), {}, [1], RAISES, 3
+    yield 'raise-coalesce', 'coalesce(tick(1, null), %s, tick(3, 1))' % R(2), {}, [1, 2], RAISES, 1
+    yield 'raise-selectCase', 'selectCase(tick(1, false), %s, tick(3, true))' % R(2), {}, [1, 2], RAISES, 1
+    yield 'raise-and', 'tick(1, true) and %s and tick(3, true)' % R(2), {}, [1, 2], RAISES, 1
+    yield 'raise-or', 'tick(1, false) or %s or tick(3, true)' % R(2), {}, [1, 2], RAISES, 1
+    yield 'raise-elvis', "tick(1, 'a')?.substring(%s, tick(3, 1))" % R(2), {}, [1, 2], RAISES, 1
+    yield 'raise-selectAllCases', 'selectAllCases(tick(1, true), %s, tick(3, true)).toList()' % R(2), {}, [1, 2], RAISES, 1
 
 
 def _lit(v):
@@ -366,6 +385,9 @@ def exact(mon, rec, rng, count):
                 mech = 'unselected-operand-evaluated:%s' % form if extra else 'evaluation-trace-differs:%s' % form
                 rec.violation(mech, '%s: probes fired %r, the evaluation-order model predicts %r (outcome %r)' % (
                     text, trace, want_trace, out), rp)
+            elif want_val is RAISES:
+                if out[0] != 'error':
+                    rec.violation('value-differs:%s' % form, '%s gave %r although the selected operand raises' % (text, out), rp)
             elif out != ('value', want_val) and not (out[0] == 'value' and out[1] == want_val):
                 rec.violation('value-differs:%s' % form, '%s gave %r, expected %r' % (text, out, want_val), rp)
         if i % 100 == 0:
